@@ -83,7 +83,9 @@ prop("C04",
           "dedup by multiplicity vector; every op from every multiset; find/contains/iterator/to_array/dup probed in every new state; non-trivial = distinct multisets",
      bounds={"quick": "4 values, multiplicity<=3, size<=7, fixpoint, one-step look-ahead", "thorough": "6 values, multiplicity<=4, size<=14, fixpoint, one-step look-ahead"},
      runs=[dict(name="h_vector", sources=["harness/h_vector.c"], profile="asan",
-                args={"quick": ["--values=4", "--mult=3", "--S=7"], "thorough": ["--values=6", "--mult=4", "--S=14"]})],
+                args={"quick": ["--values=4", "--mult=3", "--S=7"], "thorough": ["--values=6", "--mult=4", "--S=14"]}),
+           # unoptimised plain build: linked vectors of 400000 elements (an insert, a find or a copy that uses stack per element shows)
+           dict(name="h_vector_huge", sources=["harness/h_vector.c"], profile="plain0", args={"quick": ["--only=huge"], "thorough": ["--only=huge"]})],
      deadline={"quick": 200, "thorough": 3000})
 
 
@@ -274,7 +276,7 @@ prop("C20",
      rule="for each build DEBUG in {undefined,0,1,2,3,4,5,9999} the probe program and the library are compiled with that DEBUG; every (macro probe x runtime level in {0..6,9999}) cell and every (output primitive x level x silent) cell runs in a child: "
           "bytes written to stderr, side-effect counters in the macro arguments/conditions, the return value, whether the function continued and the exit status must match the gate model; a condition whose text holds \"100%%\" keeps both percent signs in the diagnostic; thorough adds one real in-library statement per D_* family; "
           "non-trivial = every executed cell",
-     bounds={"quick": "10 builds x 31 probes x 10 levels (0..6, 9999, 0x80000000, 0xffffffff) x silent {off,TRUE,0x100} x history {fresh process, after four refused output calls}", "thorough": "same + 4 in-library statements per build"},
+     bounds={"quick": "10 builds x 33 probes x 10 levels (0..6, 9999, 0x80000000, 0xffffffff) x silent {off,TRUE,0x100} x history {fresh process, after four refused output calls}", "thorough": "same + 4 in-library statements per build"},
      runs=[dict(name="h_gate_" + b, sources=["harness/h_gate.c"], profile=b, args={"quick": ["--build=" + b], "thorough": ["--build=" + b]}) for b in _GATE_BUILDS],
      deadline={"quick": 300, "thorough": 1200})
 
